@@ -56,6 +56,7 @@ struct CollState {
 	records: Vec<HookRecord>,
 	hold: Option<HoldFn>,
 	release_all: bool,
+	release_gen: u64,
 	open_conns: usize,
 }
 
@@ -114,7 +115,7 @@ impl HookCollector {
 		let sock = dir.join("h.sock");
 		let _ = std::fs::remove_file(&sock);
 		let listener = UnixListener::bind(&sock).map_err(|e| format!("bind {}: {e}", sock.display()))?;
-		let st = Arc::new((Mutex::new(CollState { records: vec![], hold: None, release_all: false, open_conns: 0 }), Condvar::new()));
+		let st = Arc::new((Mutex::new(CollState { records: vec![], hold: None, release_all: false, release_gen: 0, open_conns: 0 }), Condvar::new()));
 		let st2 = st.clone();
 		std::thread::spawn(move || {
 			for conn in listener.incoming() {
@@ -154,7 +155,8 @@ impl HookCollector {
 			g.open_conns += 1;
 			cv.notify_all();
 			if held {
-				while !g.release_all {
+				let my_gen = g.release_gen;
+				while !g.release_all && g.release_gen == my_gen {
 					g = cv.wait(g).unwrap();
 				}
 			}
@@ -175,6 +177,13 @@ impl HookCollector {
 	/// the recorder whose record makes `f` true is kept waiting (the daemon with it)
 	pub fn hold_when(&self, f: HoldFn) {
 		self.st.0.lock().unwrap().hold = Some(f);
+	}
+
+	/// lets the hooks held right now go on; later ones are still subject to the hold rule
+	pub fn release_one(&self) {
+		let (m, cv) = &*self.st;
+		m.lock().unwrap().release_gen += 1;
+		cv.notify_all();
 	}
 
 	pub fn release(&self) {
